@@ -146,6 +146,10 @@ def run(prop):
         p = subprocess.run([os.path.join(core.VERIF, "bin", "ifswap-twin"), d], stdout=subprocess.PIPE, stderr=subprocess.STDOUT)
         if p.returncode != 0:
             raise variants.Skip("bin/ifswap-twin failed: %s" % p.stdout.decode("utf-8", "replace")[-200:])
+        # and the same for the if/else statements of the C library (bin/cifswap-twin)
+        p = subprocess.run([os.path.join(core.VERIF, "bin", "cifswap-twin"), d], stdout=subprocess.PIPE, stderr=subprocess.STDOUT)
+        if p.returncode != 0:
+            raise variants.Skip("bin/cifswap-twin failed: %s" % p.stdout.decode("utf-8", "replace")[-200:])
     todo.append(("twin:IFS", None, "silent", {"apply": _ifs, "rules": []}))
     with ThreadPoolExecutor(max_workers=int(os.environ.get("VP_JOBS", "16"))) as ex:
         results = list(ex.map(lambda t: _one(prop, *t), todo))
